@@ -397,6 +397,10 @@ def toolPath (T : Tables) (env : Env) (tools : List ToolReg) (allowed : Option (
   | .call _ _ _ _ => R.fail "ValueError: invalid tool call format"
   | _ => R.fail "ValueError: expected a tool call"
 
+/-- `_oxidative_phosphorylation` after parsing: the tree-level repeated-keyword check, then `toolPath` -/
+def toolPathway (T : Tables) (env : Env) (tools : List ToolReg) (allowed : Option (List String)) (e : Expr) : R Val :=
+  if dupAnywhere e then R.fail "SyntaxError: keyword argument repeated" else toolPath T env tools allowed e
+
 inductive Pathway where
   | glycolysis | krebs | oxidative | beta
   deriving DecidableEq, Repr
@@ -444,7 +448,7 @@ def pathwayBody (T : Tables) (env : Env) (cfg : Cfg) (inp : Inp) (p : Pathway) :
     | some e => match p with
       | .glycolysis => glycolysis T env e
       | .krebs => krebs T env e
-      | _ => toolPath T env cfg.tools cfg.allowed e
+      | _ => toolPathway T env cfg.tools cfg.allowed e
 
 /-- `Mitochondria.metabolize`.  `latched` = `_ros_accumulated >= max_ros` (a float comparison, computed by the
     driver; the theorems hold for both values); `detect` = the result of `_detect_pathway` (an arbitrary function of
